@@ -748,11 +748,22 @@ impl MDL {
 
                     if !shape_values.is_empty() {
                         for shape_value in shape_values {
-                            let old_vertex =
-                                vertices[indices[shape_value.base_indices_index as usize] as usize];
-                            let new_vertex = vertices[shape_value.replacing_vertex_index as usize];
-                            let vertex = &mut morphed_vertices
-                                [indices[shape_value.base_indices_index as usize] as usize];
+                            // skip values that do not address an existing index or vertex of this mesh
+                            let Some(base_vertex_index) = indices
+                                .get(shape_value.base_indices_index as usize)
+                                .map(|index| *index as usize)
+                            else {
+                                continue;
+                            };
+                            let (Some(old_vertex), Some(new_vertex)) = (
+                                vertices.get(base_vertex_index).copied(),
+                                vertices
+                                    .get(shape_value.replacing_vertex_index as usize)
+                                    .copied(),
+                            ) else {
+                                continue;
+                            };
+                            let vertex = &mut morphed_vertices[base_vertex_index];
 
                             vertex.position[0] = new_vertex.position[0] - old_vertex.position[0];
                             vertex.position[1] = new_vertex.position[1] - old_vertex.position[1];
